@@ -19,7 +19,9 @@ RULE = ('70% E1 / 30% E2 histories driven to a quiescent state (cycle until '
         'before reboot, declared room in every dimension, true affinity '
         'counts below the limit at every level, a free identity) both in the '
         'quiescent state and after the cycle, and the probe is neither '
-        'blacklisted nor over its utilisation cap. Non-trivial = probe fits, '
+        'blacklisted nor over its utilisation cap. Secondary oracle at the '
+        'quiescent state itself: no eligible pending instance fits any '
+        'server. Non-trivial = probe fits, '
         'topology has >=2 servers and >=1 server that does not fit. '
         'distinct = canonical JSON.')
 ASSUMPTIONS = [
@@ -101,6 +103,34 @@ def execute(case, stats):
         if not quiet:
             stats.count('not_quiescent')
             raise Discard()
+        # In a quiescent cell no eligible pending instance fits either: the
+        # last cycle tried each of them in (at least) the room that is there
+        # now.
+        now = sim.clock.peek()
+        if e2:
+            sim.refresh_app_decl()
+        for name, app in sorted(sim.cell.apps.items()):
+            if app.server is not None or app.blacklisted or \
+                    getattr(app, 'final_rank', None) in (None,
+                                                         oracles.UNPLACED):
+                continue
+            if sim.decl_apps[name].get('once') and app.evicted:
+                continue
+            stats.count('pending_checked_at_quiescence')
+            where = oracles.fits(sim, name, now)
+            if where is not None:
+                raise Violation(
+                    'c02.quiescent-pending-fits',
+                    '%s (demand %s, affinity %s limits %s, lease %s, traits '
+                    '%s, partition %s, group %s) stays pending in a '
+                    'quiescent cell although %s fits it' % (
+                        name, sim.decl_apps[name]['demand'],
+                        sim.decl_apps[name]['aff'],
+                        sim.decl_apps[name]['limits'],
+                        sim.decl_apps[name]['lease'],
+                        sim.decl_apps[name]['traits'],
+                        sim.decl_apps[name]['label'],
+                        sim.decl_apps[name]['group'], where))
         if not case.get('probe'):
             return False
         crashes = getattr(sim, 'master_crashes', 0)
